@@ -91,6 +91,21 @@ func (h *wireHooks) Call(in *Interp, c *CallCtx, k func(*State, []Val)) bool {
 		}
 		return false
 	}
+	if pk == "crc" && isModulePkg(fn.Pkg()) && sig.Recv() == nil && sig.Results().Len() == 1 {
+		// checksums are opaque functions of their (bit-tracked) arguments
+		var names []string
+		for _, a := range c.Args {
+			ra := in.resolve(a, c.St)
+			if ra.K == KLin && ra.Lin.B != nil {
+				names = append(names, ra.Lin.B.String())
+			} else {
+				names = append(names, nameOf(ra))
+			}
+		}
+		c.St.emit(&Sym{Kind: "crc", Name: fn.Name(), Args: c.Args, Pos: c.Site.Pos()})
+		k(c.St, []Val{{K: KExpr, Key: fn.Name() + "{" + strings.Join(names, ";") + "}", T: sig.Results().At(0).Type()}})
+		return true
+	}
 	if h.byteMode {
 		switch fn.FullName() {
 		case "encoding/binary.Write":
@@ -107,6 +122,18 @@ func (h *wireHooks) Call(in *Interp, c *CallCtx, k func(*State, []Val)) bool {
 					t = pt.Elem()
 				}
 				id := in.newSym()
+				if in.BitMode {
+					k := 0
+					for _, s := range c.St.trace {
+						if s.Kind == "op" && strings.HasPrefix(s.Extra, "r") {
+							k++
+						}
+					}
+					if in.symNames == nil {
+						in.symNames = map[int]string{}
+					}
+					in.symNames[id] = fmt.Sprintf("in%d", k)
+				}
 				c.St.emit(&Sym{Kind: "op", Name: fmt.Sprintf("fixed%d", sizeofType(t)), ID: id, Pos: c.Site.Pos(), Extra: "r:" + byteOrder(c.ArgEs[1])})
 				// store into &x
 				if ue, ok := ast.Unparen(c.ArgEs[2]).(*ast.UnaryExpr); ok && ue.Op == token.AND {
@@ -117,6 +144,16 @@ func (h *wireHooks) Call(in *Interp, c *CallCtx, k func(*State, []Val)) bool {
 					}
 				}
 				k(c.St, []Val{{K: KNil}})
+				return true
+			}
+		case "(*bytes.Buffer).WriteTo":
+			if c.Recv != nil {
+				arg := unknown
+				if c.Recv.K == KExpr {
+					arg = Val{K: KLin, Lin: linTerm("len(" + c.Recv.Key + ")")}
+				}
+				c.St.emit(&Sym{Kind: "op", Name: "raw", Arg: arg, Pos: c.Site.Pos(), Extra: "w"})
+				k(c.St, []Val{unknown, {K: KNil}})
 				return true
 			}
 		case "io.ReadFull":
